@@ -6,7 +6,8 @@
 //! Streams (field "s" of the case json):
 //!   F  one filter/operator call with an exact Lean model  (result value compared with the model)
 //!   C  one filter/function call checked against its safety class only
-//!   P  generated program: templates + context + flattened model steps (output compared)
+//!   P  generated program: templates + context + the program AST as S-expression for the Lean
+//!      interpreter `execProg` (outputs compared)
 //!   W  the body of a P program wrapped in a capture construct must render identically
 //!   M  mode probes: capture inside an `autoescape` region, printed under Html
 //!   N  template-name → initial auto-escape
@@ -18,7 +19,7 @@ use minijinja::value::{Value, ValueKind};
 use minijinja::Environment;
 use mjh::*;
 use serde_json::json;
-use std::collections::{BTreeMap, HashMap};
+use std::collections::BTreeMap;
 use std::io::Write;
 use std::sync::Mutex;
 
@@ -685,65 +686,66 @@ fn emit_case(out: &mut impl Write, case: serde_json::Value) {
 
 fn gen_modes(out: &mut impl Write) {
     let datas = ["<α>\"β'&", "'", "a<b"];
-    for d in datas {
+    let d = || E::Var("d".into());
+    for dv in datas {
+        let mut ctx = serde_json::Map::new();
+        ctx.insert("d".into(), json!(format!("S0:{}", enc_str(dv))));
         for (region, m) in [("false", "n"), ("\"none\"", "n"), ("\"json\"", "j"), ("true", "h"), ("\"html\"", "h")] {
-            let dreg = format!("D {}", enc_str(d));
-            let kinds: Vec<(&str, &str, BTreeMap<String, String>, String)> = vec![
-                (
-                    "setblock", "end_capture",
-                    [("main.html".to_string(), format!("{{% autoescape {region} %}}{{% set x %}}{{{{ d }}}}{{% endset %}}{{% endautoescape %}}{{{{ x }}}}"))].into_iter().collect(),
-                    format!("{dreg}|BC|E {m} 0|EC {m}|E h 1"),
-                ),
-                (
-                    "macro", "macro_call",
-                    [("main.html".to_string(), format!("{{% macro mm(a) %}}{{{{ a }}}}{{% endmacro %}}{{% autoescape {region} %}}{{% set x = mm(d) %}}{{% endautoescape %}}{{{{ x }}}}"))].into_iter().collect(),
-                    format!("{dreg}|BC|E {m} 0|MR {m}|E h 1"),
-                ),
-                (
-                    "callblock", "macro_call",
-                    [("main.html".to_string(), format!("{{% macro mm() %}}{{{{ caller() }}}}{{% endmacro %}}{{% autoescape {region} %}}{{% set x %}}{{% call mm() %}}{{{{ d }}}}{{% endcall %}}{{% endset %}}{{% endautoescape %}}{{{{ x }}}}"))].into_iter().collect(),
-                    format!("{dreg}|BC|BC|BC|E {m} 0|MR {m}|E {m} 1|MR {m}|E {m} 2|EC {m}|E h 3"),
-                ),
-                (
-                    "filterblock", "end_capture",
-                    [("main.html".to_string(), format!("{{% autoescape {region} %}}{{% set x %}}{{% filter upper %}}{{{{ d }}}}{{% endfilter %}}{{% endset %}}{{% endautoescape %}}{{{{ x }}}}"))].into_iter().collect(),
-                    format!("{dreg}|BC|BC|E {m} 0|EC {m}|A upper {m} 1 -|E {m} 2|EC {m}|E h 3"),
-                ),
-                (
-                    "super", "end_capture",
-                    [
-                        ("base.html".to_string(), "{% block b %}{{ d }}{% endblock %}".to_string()),
-                        ("main.html".to_string(), format!("{{% extends \"base.html\" %}}{{% block b %}}{{% autoescape {region} %}}{{% set x = super() %}}{{% endautoescape %}}{{{{ x }}}}{{% endblock %}}")),
-                    ].into_iter().collect(),
-                    format!("{dreg}|BC|E {m} 0|EC {m}|E h 1"),
-                ),
-                (
-                    "looprec", "end_capture",
-                    [("main.html".to_string(), format!("{{% set ns = namespace(v=\"\") %}}{{% autoescape {region} %}}{{% for n in [[d]] recursive %}}{{% if n is string %}}{{{{ n }}}}{{% else %}}{{% set ns.v = loop(n) %}}{{% endif %}}{{% endfor %}}{{% endautoescape %}}{{{{ ns.v }}}}"))].into_iter().collect(),
-                    format!("{dreg}|BC|E {m} 0|EC {m}|E h 1"),
-                ),
+            let x = || E::Var("x".into());
+            let mk = |name: &str, macros: Vec<MacroDef>, body: Vec<S>, extends: Option<&str>| Tmpl {
+                name: name.into(), extends: extends.map(|s| s.to_string()), imports: vec![], macros, body,
+            };
+            let mac = |name: &str, params: Vec<&str>, body: Vec<S>, uc: bool| MacroDef {
+                name: name.into(), params: params.into_iter().map(|s| s.to_string()).collect(), body, uses_caller: uc,
+            };
+            let kinds: Vec<(&str, &str, Vec<Tmpl>)> = vec![
+                ("setblock", "end_capture", vec![mk("main.html", vec![], vec![
+                    S::Auto(region, vec![S::SetBlock("x".into(), vec![S::Emit(d())], None)]), S::Emit(x())], None)]),
+                ("macro", "macro_call", vec![mk("main.html", vec![mac("mm", vec!["a"], vec![S::Emit(E::Var("a".into()))], false)], vec![
+                    S::Auto(region, vec![S::Set("x".into(), E::Call("mm".into(), vec![d()]))]), S::Emit(x())], None)]),
+                ("callblock", "macro_call", vec![mk("main.html", vec![mac("mm", vec![], vec![S::Emit(E::Caller)], true)], vec![
+                    S::Auto(region, vec![S::SetBlock("x".into(), vec![S::CallBlock("mm".into(), vec![], vec![S::Emit(d())])], None)]), S::Emit(x())], None)]),
+                ("filterblock", "end_capture", vec![mk("main.html", vec![], vec![
+                    S::Auto(region, vec![S::SetBlock("x".into(), vec![S::FilterBlock("upper".into(), "upper".into(), vec![], vec![S::Emit(d())])], None)]), S::Emit(x())], None)]),
+                ("super", "end_capture", vec![
+                    mk("base.html", vec![], vec![S::Block("b".into(), vec![S::Emit(d())])], None),
+                    mk("main.html", vec![], vec![S::Block("b".into(), vec![S::Auto(region, vec![S::Set("x".into(), E::Super)]), S::Emit(x())])], Some("base.html")),
+                ]),
+                ("include", "end_capture", vec![
+                    mk("inc.html", vec![], vec![S::Emit(d())], None),
+                    mk("main.html", vec![], vec![S::Auto(region, vec![S::SetBlock("x".into(), vec![S::Include("inc.html".into())], None)]), S::Emit(x())], None),
+                ]),
             ];
-            for (kind, site, t, model) in kinds {
-                let case = json!({"s": "M", "kind": kind, "site": site, "region": region, "mode": m,
-                    "t": t, "ctx": {"d": format!("S0:{}", enc_str(d))}, "model": model});
+            for (kind, site, ts) in kinds {
+                let case = prog_case("M", &ts, "main.html", &ctx, false, json!({"kind": kind, "site": site, "region": region, "mode": m}));
                 emit_case(out, case);
             }
+            // the recursive loop call needs `namespace` to carry the captured value out of the loop:
+            // sent as a hand-written step program
+            let mut t = BTreeMap::new();
+            t.insert("main.html".to_string(), format!("{{% set ns = namespace(v=\"\") %}}{{% autoescape {region} %}}{{% for n in [[d]] recursive %}}{{% if n is string %}}{{{{ n }}}}{{% else %}}{{% set ns.v = loop(n) %}}{{% endif %}}{{% endfor %}}{{% endautoescape %}}{{{{ ns.v }}}}"));
+            let case = json!({"s": "M", "kind": "looprec", "site": "end_capture", "region": region, "mode": m, "t": t, "ctx": ctx,
+                "model": format!("D {}|BC|E {m} 0|EC {m}|E h 1", enc_str(dv))});
+            emit_case(out, case);
         }
     }
 }
 
 fn gen_names(out: &mut impl Write) {
     let d = "<α>\"β'&";
+    let mut ctx = serde_json::Map::new();
+    ctx.insert("d".into(), json!(format!("S0:{}", enc_str(d))));
     for (name, m) in [
         ("a.html", "h"), ("a.htm", "h"), ("a.xml", "h"), ("a.html.j2", "h"), ("dir/a.xml.jinja", "h"),
-        ("a.htm.jinja2", "h"), ("a.b.html", "h"), ("a.txt", "n"), ("a.html.txt", "n"), ("html", "h"),
-        ("a.json", "j"), ("a.yaml.j2", "j"), ("a.HTML", "n"), ("a.xhtml", "n"),
+        ("a.htm.jinja2", "h"), ("a.b.html", "h"), ("v1.2/mail.en.xml.j2", "h"), ("a.txt", "n"), ("a.html.txt", "n"), ("html", "h"),
+        ("a.json", "j"), ("a.yaml.j2", "j"), ("a.HTML", "n"), ("a.xhtml", "n"), ("a.j2.html.j2", "h"), ("a.html.j2.jinja", "n"),
     ] {
-        let mut t = BTreeMap::new();
-        t.insert(name.to_string(), "{% set x %}{{ d }}{% endset %}{{ x }}{{ d|e }}".to_string());
-        let case = json!({"s": "N", "name": name, "mode": m, "main": name, "t": t,
-            "ctx": {"d": format!("S0:{}", enc_str(d))},
-            "model": format!("D {}|BC|E {m} 0|EC {m}|E {m} 1|A escape {m} 0 -|E {m} 2", enc_str(d))});
+        let dv = || E::Var("d".into());
+        let t = Tmpl { name: name.into(), extends: None, imports: vec![], macros: vec![], body: vec![
+            S::SetBlock("x".into(), vec![S::Emit(dv())], None), S::Emit(E::Var("x".into())),
+            S::Emit(E::Filt("escape".into(), "e".into(), vec![dv()], vec![])),
+        ] };
+        let case = prog_case("N", &[t], name, &ctx, false, json!({"name": name, "mode": m}));
         emit_case(out, case);
     }
 }
@@ -764,7 +766,13 @@ enum E {
     Caller,
     Super,
     LoopIndex,
-    Cond(String, Box<E>, Box<E>),
+    LoopFirst,
+    Not(Box<E>),
+    Attr(Box<E>, String),
+    Dict(Vec<(String, E)>),
+    LoopRec(Box<E>),
+    /// condition, then, else
+    Cond(Box<E>, Box<E>, Box<E>),
 }
 
 #[derive(Clone, Debug)]
@@ -774,15 +782,14 @@ enum S {
     Set(String, E),
     SetBlock(String, Vec<S>, Option<(String, String, Vec<u64>)>),
     FilterBlock(String, String, Vec<u64>, Vec<S>),
-    For(String, E, Vec<S>, Vec<S>),
-    If(String, Vec<S>, Vec<S>),
-    IfFirst(Vec<S>, Vec<S>),
+    /// variable, iterable, recursive, body, else
+    For(String, E, bool, Vec<S>, Vec<S>),
+    If(E, Vec<S>, Vec<S>),
     With(String, E, Vec<S>),
     CallBlock(String, Vec<E>, Vec<S>),
     Include(String),
     Block(String, Vec<S>),
     Auto(&'static str, Vec<S>),
-    Tree(String),
 }
 
 #[derive(Clone, Debug)]
@@ -836,7 +843,12 @@ fn expr_src(e: &E) -> String {
         E::Caller => "caller()".into(),
         E::Super => "super()".into(),
         E::LoopIndex => "loop.index".into(),
-        E::Cond(f, a, b) => format!("({} if {} else {})", expr_src(a), f, expr_src(b)),
+        E::LoopFirst => "loop.first".into(),
+        E::Not(a) => format!("(not {})", expr_src(a)),
+        E::Attr(a, k) => format!("({}).{}", expr_src(a), k),
+        E::Dict(kvs) => format!("{{{}}}", kvs.iter().map(|(k, v)| format!("\"{}\": {}", k, expr_src(v))).collect::<Vec<_>>().join(", ")),
+        E::LoopRec(a) => format!("loop({})", expr_src(a)),
+        E::Cond(c, a, b) => format!("({} if {} else {})", expr_src(a), expr_src(c), expr_src(b)),
     }
 }
 
@@ -854,15 +866,15 @@ fn stmt_src(s: &S) -> String {
             None => format!("{{% set {} %}}{}{{% endset %}}", n, stmts_src(b)),
         },
         S::FilterBlock(_, syn, _, b) => format!("{{% filter {} %}}{}{{% endfilter %}}", syn, stmts_src(b)),
-        S::For(v, it, b, el) => {
+        S::For(v, it, rec, b, el) => {
+            let r = if *rec { " recursive" } else { "" };
             if el.is_empty() {
-                format!("{{% for {} in {} %}}{}{{% endfor %}}", v, expr_src(it), stmts_src(b))
+                format!("{{% for {} in {}{} %}}{}{{% endfor %}}", v, expr_src(it), r, stmts_src(b))
             } else {
-                format!("{{% for {} in {} %}}{}{{% else %}}{}{{% endfor %}}", v, expr_src(it), stmts_src(b), stmts_src(el))
+                format!("{{% for {} in {}{} %}}{}{{% else %}}{}{{% endfor %}}", v, expr_src(it), r, stmts_src(b), stmts_src(el))
             }
         }
-        S::If(f, a, b) => format!("{{% if {} %}}{}{{% else %}}{}{{% endif %}}", f, stmts_src(a), stmts_src(b)),
-        S::IfFirst(a, b) => format!("{{% if loop.first %}}{}{{% else %}}{}{{% endif %}}", stmts_src(a), stmts_src(b)),
+        S::If(c, a, b) => format!("{{% if {} %}}{}{{% else %}}{}{{% endif %}}", expr_src(c), stmts_src(a), stmts_src(b)),
         S::With(n, e, b) => format!("{{% with {} = {} %}}{}{{% endwith %}}", n, expr_src(e), stmts_src(b)),
         S::CallBlock(m, args, b) => format!(
             "{{% call {}({}) %}}{}{{% endcall %}}",
@@ -873,11 +885,143 @@ fn stmt_src(s: &S) -> String {
         S::Include(n) => format!("{{% include \"{}\" %}}", n),
         S::Block(n, b) => format!("{{% block {} %}}{}{{% endblock %}}", n, stmts_src(b)),
         S::Auto(a, b) => format!("{{% autoescape {} %}}{}{{% endautoescape %}}", a, stmts_src(b)),
-        S::Tree(v) => format!(
-            "{{% for n in {} recursive %}}{{{{ n.name }}}}{{% if n.children %}}[{{{{ loop(n.children) }}}}]{{% endif %}}{{% endfor %}}",
-            v
-        ),
     }
+}
+
+// ---- S-expressions for the Lean interpreter (MJ/Drive/C02.lean)
+fn sx_list(head: &str, items: Vec<String>) -> String {
+    if items.is_empty() { format!("({head})") } else { format!("({head} {})", items.join(" ")) }
+}
+fn nums(ps: &[u64]) -> Vec<String> {
+    ps.iter().map(|p| p.to_string()).collect()
+}
+fn expr_sx(e: &E) -> String {
+    match e {
+        E::Var(n) => format!("(var {})", enc_str(n)),
+        E::Lit(s) => format!("(lit {})", enc_str(s)),
+        E::Bin(op, a, b) => format!("({} {} {})", if *op == "+" { "add" } else { "cat" }, expr_sx(a), expr_sx(b)),
+        E::Mul(a, n) => format!("(mul {} {})", expr_sx(a), n),
+        E::Filt(model, _, args, ps) => {
+            let mut items = vec![enc_str(model), sx_list("ps", nums(ps))];
+            items.extend(args.iter().map(expr_sx));
+            sx_list("filt", items)
+        }
+        E::Index(a, k) => format!("(index {} {})", expr_sx(a), k),
+        E::Slice(a, x, y) => format!("(slice {} {} {})", expr_sx(a), x, y),
+        E::List(xs) => sx_list("list", xs.iter().map(expr_sx).collect()),
+        E::Call(m, args) => {
+            let mut items = vec![enc_str(m)];
+            items.extend(args.iter().map(expr_sx));
+            sx_list("call", items)
+        }
+        E::Caller => "(caller)".into(),
+        E::Super => "(super)".into(),
+        E::LoopIndex => "(loopindex)".into(),
+        E::LoopFirst => "(loopfirst)".into(),
+        E::Not(a) => format!("(not {})", expr_sx(a)),
+        E::Attr(a, k) => format!("(attr {} {})", expr_sx(a), enc_str(k)),
+        E::Dict(kvs) => sx_list("dict", kvs.iter().map(|(k, v)| format!("({} {})", enc_str(k), expr_sx(v))).collect()),
+        E::LoopRec(a) => format!("(looprec {})", expr_sx(a)),
+        E::Cond(c, a, b) => format!("(cond {} {} {})", expr_sx(c), expr_sx(a), expr_sx(b)),
+    }
+}
+fn stmts_sx(ss: &[S]) -> Vec<String> {
+    ss.iter().map(stmt_sx).collect()
+}
+fn stmt_sx(s: &S) -> String {
+    match s {
+        S::Text(t) => format!("(text {})", enc_str(t)),
+        S::Emit(e) => format!("(emit {})", expr_sx(e)),
+        S::Set(n, e) => format!("(set {} {})", enc_str(n), expr_sx(e)),
+        S::SetBlock(n, b, f) => {
+            let mut items = vec![enc_str(n)];
+            items.push(match f {
+                Some((m, _, ps)) => { let mut x = vec![enc_str(m)]; x.extend(nums(ps)); sx_list("filt", x) }
+                None => "(nofilt)".into(),
+            });
+            items.extend(stmts_sx(b));
+            sx_list("setblock", items)
+        }
+        S::FilterBlock(m, _, ps, b) => {
+            let mut items = vec![enc_str(m), sx_list("ps", nums(ps))];
+            items.extend(stmts_sx(b));
+            sx_list("filterblock", items)
+        }
+        S::For(v, it, rec, b, el) => format!("(for {} {} {} {} {})", enc_str(v), expr_sx(it), *rec as u8, sx_list("body", stmts_sx(b)), sx_list("else", stmts_sx(el))),
+        S::If(c, a, b) => format!("(if {} {} {})", expr_sx(c), sx_list("then", stmts_sx(a)), sx_list("else", stmts_sx(b))),
+        S::With(n, e, b) => { let mut items = vec![enc_str(n), expr_sx(e)]; items.extend(stmts_sx(b)); sx_list("with", items) }
+        S::CallBlock(m, args, b) => {
+            let mut items = vec![enc_str(m), sx_list("args", args.iter().map(expr_sx).collect())];
+            items.extend(stmts_sx(b));
+            sx_list("callblock", items)
+        }
+        S::Include(n) => format!("(include {})", enc_str(n)),
+        S::Block(n, b) => { let mut items = vec![enc_str(n)]; items.extend(stmts_sx(b)); sx_list("block", items) }
+        S::Auto(a, b) => {
+            let arg = match *a { "true" => "tru".to_string(), "false" => "fals".to_string(), q => enc_str(q.trim_matches('"')) };
+            let mut items = vec![arg];
+            items.extend(stmts_sx(b));
+            sx_list("auto", items)
+        }
+    }
+}
+fn tmpl_sx(t: &Tmpl) -> String {
+    let macros: Vec<String> = t.macros.iter().map(|m| {
+        let mut items = vec![enc_str(&m.name), sx_list("params", m.params.iter().map(|p| enc_str(p)).collect())];
+        items.extend(stmts_sx(&m.body));
+        sx_list("macro", items)
+    }).collect();
+    let mut items = vec![enc_str(&t.name), t.extends.as_ref().map(|p| enc_str(p)).unwrap_or("_".into()), sx_list("macros", macros)];
+    items.extend(stmts_sx(&t.body));
+    sx_list("tmpl", items)
+}
+fn prog_sx(templates: &[Tmpl], main: &str) -> String {
+    let mut items = vec![enc_str(main)];
+    items.extend(templates.iter().map(tmpl_sx));
+    sx_list("prog", items)
+}
+/// encoded context value (`S0:` `I:` `B:` `N` `L(..)` `M(..)`) → S-expression
+fn cv_sx(enc: &str) -> String {
+    fn go(p: &mut P) -> String {
+        let t = p.token();
+        if (t == "L" || t == "M") && p.peek() == b'(' {
+            let is_map = t == "M";
+            p.i += 1;
+            let mut xs = vec![];
+            while p.peek() != b')' {
+                if is_map {
+                    let k = p.token();
+                    p.i += 1;
+                    let v = go(p);
+                    xs.push(format!("({} {})", if k.is_empty() { "-".to_string() } else { k }, v));
+                } else {
+                    xs.push(go(p));
+                }
+                if p.peek() == b';' {
+                    p.i += 1;
+                }
+            }
+            p.i += 1;
+            return sx_list(if is_map { "m" } else { "l" }, xs);
+        }
+        if let Some(r) = t.strip_prefix("S0:") {
+            return format!("(s {})", if r.is_empty() { "-" } else { r });
+        }
+        if let Some(r) = t.strip_prefix("I:") {
+            return format!("(i {r})");
+        }
+        if let Some(r) = t.strip_prefix("B:") {
+            return format!("(b {r})");
+        }
+        if t == "N" {
+            return "(n)".into();
+        }
+        panic!("context value not expressible: {t}");
+    }
+    go(&mut P { s: enc.as_bytes(), i: 0 })
+}
+fn ctx_sx(ctx: &serde_json::Map<String, serde_json::Value>) -> String {
+    sx_list("ctx", ctx.iter().map(|(k, v)| format!("({} {})", enc_str(k), cv_sx(v.as_str().unwrap()))).collect())
 }
 
 fn header_src(t: &Tmpl) -> String {
@@ -916,344 +1060,6 @@ struct Program {
     lists: Vec<(String, Vec<String>)>,
     flags: Vec<(String, bool)>,
     tree: Vec<Tree>,
-}
-
-// ---- flattening to model steps
-#[derive(Clone, Debug)]
-enum Shape {
-    Str(Option<usize>),
-    List(Option<usize>),
-    Other,
-}
-
-struct Interp<'a> {
-    prog: &'a Program,
-    steps: Vec<String>,
-    nreg: usize,
-    scopes: Vec<HashMap<String, (usize, Shape)>>,
-    macros: HashMap<String, MacroDef>,
-    callers: Vec<Option<(Vec<S>, Vec<HashMap<String, (usize, Shape)>>)>>,
-    loops: Vec<usize>,
-    /// block name → bodies from most derived to base
-    chains: HashMap<String, Vec<Vec<S>>>,
-    supers: Vec<(String, usize)>,
-}
-
-impl<'a> Interp<'a> {
-    fn push_step(&mut self, s: String) -> usize {
-        self.steps.push(s);
-        self.nreg += 1;
-        self.nreg - 1
-    }
-    fn lookup(&self, n: &str) -> (usize, Shape) {
-        for sc in self.scopes.iter().rev() {
-            if let Some(v) = sc.get(n) {
-                return v.clone();
-            }
-        }
-        panic!("generator bug: variable {n} not in scope");
-    }
-    fn bind(&mut self, n: &str, r: usize, sh: Shape) {
-        self.scopes.last_mut().unwrap().insert(n.to_string(), (r, sh));
-    }
-    fn flag(&self, n: &str) -> bool {
-        self.prog.flags.iter().find(|(k, _)| k == n).unwrap().1
-    }
-    fn regs(rs: &[usize]) -> String {
-        if rs.is_empty() { "-".into() } else { rs.iter().map(|r| r.to_string()).collect::<Vec<_>>().join(",") }
-    }
-    fn call_macro(&mut self, name: &str, args: &[E], caller: Option<(Vec<S>, Vec<HashMap<String, (usize, Shape)>>)>) -> usize {
-        let def = self.macros.get(name).unwrap_or_else(|| panic!("generator bug: macro {name}")).clone();
-        let mut frame = HashMap::new();
-        for (i, p) in def.params.iter().enumerate() {
-            let (r, sh) = match args.get(i) {
-                Some(a) => self.expr(a),
-                None => (self.push_step("U".into()), Shape::Other),
-            };
-            frame.insert(p.clone(), (r, sh));
-        }
-        self.steps.push("BC".into());
-        let saved = std::mem::replace(&mut self.scopes, vec![]);
-        self.scopes.push(saved[0].clone());
-        self.scopes.push(frame);
-        self.callers.push(caller);
-        let saved_loops = std::mem::take(&mut self.loops);
-        self.block(&def.body);
-        self.loops = saved_loops;
-        self.callers.pop();
-        self.scopes = saved;
-        self.push_step("MR h".into())
-    }
-    fn expr(&mut self, e: &E) -> (usize, Shape) {
-        match e {
-            E::Var(n) => self.lookup(n),
-            E::Lit(s) => (self.push_step(format!("D {}", enc_str(s))), Shape::Str(Some(s.chars().count()))),
-            E::Bin(op, a, b) => {
-                let (ra, _) = self.expr(a);
-                let (rb, _) = self.expr(b);
-                let m = if *op == "+" { "add" } else { "concat" };
-                (self.push_step(format!("A {m} h {ra},{rb} -")), Shape::Str(None))
-            }
-            E::Mul(a, n) => {
-                let (ra, _) = self.expr(a);
-                (self.push_step(format!("A repeat h {ra} {n}")), Shape::Str(None))
-            }
-            E::Filt(model, _, args, ps) => {
-                let mut rs = vec![];
-                let mut sh0 = Shape::Other;
-                for (i, a) in args.iter().enumerate() {
-                    let (r, sh) = self.expr(a);
-                    if i == 0 {
-                        sh0 = sh;
-                    }
-                    rs.push(r);
-                }
-                let r = self.push_step(format!(
-                    "A {} h {} {}",
-                    model,
-                    Self::regs(&rs),
-                    if ps.is_empty() { "-".into() } else { ps.iter().map(|p| p.to_string()).collect::<Vec<_>>().join(",") }
-                ));
-                let sh = match model.as_str() {
-                    "split" | "lines" => Shape::List(None),
-                    "list" | "chars" => match sh0 {
-                        Shape::Str(n) | Shape::List(n) => Shape::List(n),
-                        _ => Shape::List(None),
-                    },
-                    "reverse" => sh0,
-                    m if m.starts_with("map.") => match sh0 {
-                        Shape::List(n) | Shape::Str(n) => Shape::List(n),
-                        _ => Shape::List(None),
-                    },
-                    _ => Shape::Str(None),
-                };
-                (r, sh)
-            }
-            E::Index(a, k) => {
-                let (ra, _) = self.expr(a);
-                (self.push_step(format!("A elem h {ra} {k}")), Shape::Str(None))
-            }
-            E::Slice(a, x, y) => {
-                let (ra, sh) = self.expr(a);
-                let r = self.push_step(format!("A slice h {ra} {x},{y}"));
-                let len = |n: Option<usize>| n.map(|n| y.min(&n).saturating_sub(*x.min(&n)));
-                (r, match sh {
-                    Shape::Str(n) => Shape::Str(len(n)),
-                    Shape::List(n) => Shape::List(len(n)),
-                    o => o,
-                })
-            }
-            E::List(xs) => {
-                let rs: Vec<usize> = xs.iter().map(|x| self.expr(x).0).collect();
-                (self.push_step(format!("L {}", Self::regs(&rs))), Shape::List(Some(xs.len())))
-            }
-            E::Call(m, args) => (self.call_macro(m, args, None), Shape::Str(None)),
-            E::Caller => {
-                let (body, scopes) = self.callers.last().cloned().flatten().expect("generator bug: caller");
-                self.steps.push("BC".into());
-                let saved = std::mem::replace(&mut self.scopes, scopes);
-                self.scopes.push(HashMap::new());
-                self.callers.push(None);
-                let saved_loops = std::mem::take(&mut self.loops);
-                self.block(&body);
-                self.loops = saved_loops;
-                self.callers.pop();
-                self.scopes = saved;
-                (self.push_step("MR h".into()), Shape::Str(None))
-            }
-            E::Super => {
-                let (name, level) = self.supers.last().cloned().expect("generator bug: super");
-                let body = self.chains[&name][level + 1].clone();
-                self.steps.push("BC".into());
-                self.supers.push((name, level + 1));
-                self.scopes.push(HashMap::new());
-                self.block(&body);
-                self.scopes.pop();
-                self.supers.pop();
-                (self.push_step("EC h".into()), Shape::Str(None))
-            }
-            E::LoopIndex => {
-                let k = *self.loops.last().expect("generator bug: loop.index");
-                (self.push_step(format!("I {}", k + 1)), Shape::Other)
-            }
-            E::Cond(f, a, b) => {
-                if self.flag(f) { self.expr(a) } else { self.expr(b) }
-            }
-        }
-    }
-    fn block(&mut self, ss: &[S]) {
-        for s in ss {
-            self.stmt(s);
-        }
-    }
-    fn scoped(&mut self, ss: &[S]) {
-        self.scopes.push(HashMap::new());
-        self.block(ss);
-        self.scopes.pop();
-    }
-    fn tree(&mut self, nodes: &[Tree]) {
-        for n in nodes {
-            let r = self.push_step(format!("D {}", enc_str(&n.name)));
-            self.steps.push(format!("E h {r}"));
-            if !n.children.is_empty() {
-                self.steps.push(format!("R {}", enc_str("[")));
-                self.steps.push("BC".into());
-                self.tree(&n.children);
-                let c = self.push_step("EC h".into());
-                self.steps.push(format!("E h {c}"));
-                self.steps.push(format!("R {}", enc_str("]")));
-            }
-        }
-    }
-    fn stmt(&mut self, s: &S) {
-        match s {
-            S::Text(t) => {
-                if !t.is_empty() {
-                    self.steps.push(format!("R {}", enc_str(t)));
-                }
-            }
-            S::Emit(e) => {
-                let (r, _) = self.expr(e);
-                self.steps.push(format!("E h {r}"));
-            }
-            S::Set(n, e) => {
-                let (r, sh) = self.expr(e);
-                self.bind(n, r, sh);
-            }
-            S::SetBlock(n, b, f) => {
-                self.steps.push("BC".into());
-                self.scoped(b);
-                let mut r = self.push_step("EC h".into());
-                if let Some((model, _, ps)) = f {
-                    r = self.push_step(format!("A {} h {} {}", model, r, if ps.is_empty() { "-".into() } else { ps.iter().map(|p| p.to_string()).collect::<Vec<_>>().join(",") }));
-                }
-                self.bind(n, r, Shape::Str(None));
-            }
-            S::FilterBlock(model, _, ps, b) => {
-                self.steps.push("BC".into());
-                self.scoped(b);
-                let r = self.push_step("EC h".into());
-                let r2 = self.push_step(format!("A {} h {} {}", model, r, if ps.is_empty() { "-".into() } else { ps.iter().map(|p| p.to_string()).collect::<Vec<_>>().join(",") }));
-                self.steps.push(format!("E h {r2}"));
-            }
-            S::For(v, it, b, el) => {
-                let (mut r, sh) = self.expr(it);
-                let n = match sh {
-                    Shape::List(Some(n)) => n,
-                    Shape::Str(Some(n)) => {
-                        r = self.push_step(format!("A chars h {r} -"));
-                        n
-                    }
-                    _ => panic!("generator bug: loop over unknown length {:?}", it),
-                };
-                if n == 0 {
-                    self.scoped(el);
-                }
-                for k in 0..n {
-                    let rk = self.push_step(format!("A elem h {r} {k}"));
-                    self.scopes.push(HashMap::new());
-                    self.bind(v, rk, Shape::Str(None));
-                    self.loops.push(k);
-                    self.block(b);
-                    self.loops.pop();
-                    self.scopes.pop();
-                }
-            }
-            S::If(f, a, b) => {
-                if self.flag(f) { self.block(a) } else { self.block(b) }
-            }
-            S::IfFirst(a, b) => {
-                if *self.loops.last().expect("generator bug: loop.first") == 0 { self.block(a) } else { self.block(b) }
-            }
-            S::With(n, e, b) => {
-                let (r, sh) = self.expr(e);
-                self.scopes.push(HashMap::new());
-                self.bind(n, r, sh);
-                self.block(b);
-                self.scopes.pop();
-            }
-            S::CallBlock(m, args, b) => {
-                let snapshot = self.scopes.clone();
-                let r = self.call_macro(m, args, Some((b.clone(), snapshot)));
-                self.steps.push(format!("E h {r}"));
-            }
-            S::Include(name) => {
-                let t = self.prog.templates.iter().find(|t| &t.name == name).unwrap().clone();
-                for m in &t.macros {
-                    self.macros.insert(m.name.clone(), m.clone());
-                }
-                let saved_loops = std::mem::take(&mut self.loops);
-                self.scoped(&t.body);
-                self.loops = saved_loops;
-            }
-            S::Block(name, default) => {
-                let body = match self.chains.get(name) {
-                    Some(c) => c[0].clone(),
-                    None => default.clone(),
-                };
-                self.supers.push((name.clone(), 0));
-                let saved_loops = std::mem::take(&mut self.loops);
-                self.scoped(&body);
-                self.loops = saved_loops;
-                self.supers.pop();
-            }
-            S::Auto(_, b) => self.block(b),
-            S::Tree(_) => {
-                let t = self.prog.tree.clone();
-                self.tree(&t);
-            }
-        }
-    }
-}
-
-fn flatten(prog: &Program) -> String {
-    let mut it = Interp {
-        prog, steps: vec![], nreg: 0, scopes: vec![HashMap::new()], macros: HashMap::new(),
-        callers: vec![None], loops: vec![], chains: HashMap::new(), supers: vec![],
-    };
-    for (n, s) in &prog.strs {
-        let r = it.push_step(format!("D {}", enc_str(s)));
-        it.bind(n, r, Shape::Str(Some(s.chars().count())));
-    }
-    for (n, xs) in &prog.lists {
-        let rs: Vec<usize> = xs.iter().map(|s| it.push_step(format!("D {}", enc_str(s)))).collect();
-        let r = it.push_step(format!("L {}", Interp::regs(&rs)));
-        it.bind(n, r, Shape::List(Some(xs.len())));
-    }
-    // all macros are globally named
-    for t in &prog.templates {
-        for m in &t.macros {
-            it.macros.insert(m.name.clone(), m.clone());
-        }
-    }
-    // inheritance chain of the main template
-    let mut chain = vec![];
-    let mut cur = prog.templates.iter().find(|t| t.name == prog.main).unwrap();
-    loop {
-        chain.push(cur);
-        match &cur.extends {
-            Some(p) => cur = prog.templates.iter().find(|t| &t.name == p).unwrap(),
-            None => break,
-        }
-    }
-    fn collect(ss: &[S], out: &mut Vec<(String, Vec<S>)>) {
-        for s in ss {
-            if let S::Block(n, b) = s {
-                out.push((n.clone(), b.clone()));
-            }
-        }
-    }
-    for t in &chain {
-        let mut bs = vec![];
-        collect(&t.body, &mut bs);
-        for (n, b) in bs {
-            it.chains.entry(n).or_default().push(b);
-        }
-    }
-    let base = chain.last().unwrap();
-    it.scopes.push(HashMap::new());
-    it.block(&base.body);
-    it.steps.join("|")
 }
 
 // ---- generator
@@ -1364,7 +1170,13 @@ impl Gen {
             16 => if sc.caller { self.feat("caller()"); E::Caller } else { self.str_expr(d, sc) },
             17 => if sc.sup { self.feat("super()"); E::Super } else { self.str_expr(d, sc) },
             18 => if sc.in_loop { self.feat("loop.index"); E::Bin("~", Box::new(E::LoopIndex), Box::new(self.str_expr(d, sc))) } else { self.str_expr(d, sc) },
-            19 => if !sc.flags.is_empty() { self.feat("cond-expr"); E::Cond(self.rng.pick(&sc.flags).clone(), Box::new(self.str_expr(d, sc)), Box::new(self.str_expr(d, sc))) } else { self.str_expr(d, sc) },
+            19 => { self.feat("cond-expr"); let c = self.cond_expr(sc); E::Cond(Box::new(c), Box::new(self.str_expr(d, sc)), Box::new(self.str_expr(d, sc))) }
+            22 => {
+                self.feat("dict-attr");
+                let kvs = vec![("a".to_string(), self.str_expr(d, sc)), ("b".to_string(), self.str_expr(d, sc))];
+                let k = if self.rng.chance(1, 2) { "a" } else { "b" };
+                E::Attr(Box::new(E::Dict(kvs)), k.to_string())
+            }
             20 | 21 => {
                 self.feat("format");
                 let (fmt, n): (&str, usize) = *self.rng.pick(&[("%s", 1), ("%s-%s", 2), ("[%5s]", 1), ("%-4s|%s", 2), ("%.2s", 1), ("%s%%", 1)]);
@@ -1384,6 +1196,17 @@ impl Gen {
             2 if depth > 0 => E::Bin("~", Box::new(self.str_expr(depth - 1, sc)), Box::new(self.str_expr(depth - 1, sc))),
             3 if depth > 0 => { let (m, s, p) = self.block_filter(); E::Filt(m, s, vec![self.sure_str(depth - 1, sc)], p) }
             _ => E::Lit(self.data(4)),
+        }
+    }
+    /// a condition: flag, loop.first, truthiness of a string / list variable, negation
+    fn cond_expr(&mut self, sc: &Scope) -> E {
+        match self.rng.below(6) {
+            0 if sc.in_loop => { self.feat("loop.first"); E::LoopFirst }
+            1 if !sc.strs.is_empty() => E::Var(self.rng.pick(&sc.strs).clone()),
+            2 if !sc.lists.is_empty() => E::Var(self.rng.pick(&sc.lists).clone()),
+            3 => E::Not(Box::new(self.cond_expr(sc))),
+            _ if !sc.flags.is_empty() => E::Var(self.rng.pick(&sc.flags).clone()),
+            _ => E::Lit(self.data(1)),
         }
     }
     fn pattern(&mut self, sc: &Scope) -> E {
@@ -1478,7 +1301,7 @@ impl Gen {
             13 | 14 | 15 => {
                 self.feat("for");
                 let v = self.fresh("x");
-                let it = self.iter_expr(2, sc);
+                let it = if self.rng.chance(1, 2) { self.iter_expr(2, sc) } else { self.feat("for-computed-iterable"); self.list_expr(2, sc) };
                 let mut inner = sc.clone();
                 inner.strs.push(v.clone());
                 inner.in_loop = true;
@@ -1486,20 +1309,19 @@ impl Gen {
                 let b = self.block(n, d, &mut inner);
                 let mut e2 = sc.clone();
                 let el = if self.rng.chance(1, 4) { self.feat("for-else"); self.block(1, 0, &mut e2) } else { vec![] };
-                vec![S::For(v, it, b, el)]
+                vec![S::For(v, it, false, b, el)]
             }
             16 => {
-                if sc.flags.is_empty() { return vec![S::Text(self.text())]; }
                 self.feat("if");
-                let f = self.rng.pick(&sc.flags).clone();
+                let c = self.cond_expr(sc);
                 let (mut a, mut b) = (sc.clone(), sc.clone());
-                vec![S::If(f, self.block(1, d, &mut a), self.block(1, d, &mut b))]
+                vec![S::If(c, self.block(1, d, &mut a), self.block(1, d, &mut b))]
             }
             17 => {
                 if !sc.in_loop { return vec![S::Emit(self.str_expr(3, sc))]; }
                 self.feat("loop.first");
                 let (mut a, mut b) = (sc.clone(), sc.clone());
-                vec![S::IfFirst(self.block(1, d, &mut a), self.block(1, d, &mut b))]
+                vec![S::If(E::LoopFirst, self.block(1, d, &mut a), self.block(1, d, &mut b))]
             }
             18 => {
                 self.feat("with");
@@ -1535,7 +1357,21 @@ impl Gen {
                 let n = 1 + self.rng.below(2) as usize;
                 vec![S::Auto(a, self.block(n, d, &mut inner))]
             }
-            25 => { self.feat("recursive-loop"); vec![S::Tree("tree".into())] }
+            25 => {
+                // {% for n in tree recursive %}{{ n.name }}…{% if n.children %}[{{ loop(n.children) }}]{% endif %}{% endfor %}
+                self.feat("recursive-loop");
+                let v = self.fresh("n");
+                let node = E::Var(v.clone());
+                let mut inner = sc.clone();
+                inner.in_loop = true;
+                let mut body = vec![S::Emit(E::Attr(Box::new(node.clone()), "name".into()))];
+                if self.rng.chance(1, 2) {
+                    body.extend(self.block(1, 0, &mut inner));
+                }
+                let kids = E::Attr(Box::new(node), "children".into());
+                body.push(S::If(kids.clone(), vec![S::Text("[".into()), S::Emit(E::LoopRec(Box::new(kids))), S::Text("]".into())], vec![]));
+                vec![S::For(v, E::Var("tree".into()), true, body, vec![])]
+            }
             26 | 27 => {
                 // safe format string from a capture
                 self.feat("format-safe");
@@ -1713,46 +1549,72 @@ fn prog_ctx(p: &Program) -> serde_json::Map<String, serde_json::Value> {
     ctx
 }
 
+/// case json of a program given as AST: template sources for the engine, S-expressions for the model
+fn prog_case(stream: &str, templates: &[Tmpl], main: &str, ctx: &serde_json::Map<String, serde_json::Value>, strict: bool, extra: serde_json::Value) -> serde_json::Value {
+    let mut t = serde_json::Map::new();
+    for tm in templates {
+        t.insert(tm.name.clone(), json!(tmpl_src(tm)));
+    }
+    let mut case = json!({"s": stream, "main": main, "t": t, "ctx": ctx, "strict": strict as u8,
+        "prog": prog_sx(templates, main), "ctxsx": ctx_sx(ctx)});
+    if let Some(o) = extra.as_object() {
+        for (k, v) in o {
+            case[k] = v.clone();
+        }
+    }
+    case
+}
+
 fn gen_programs(out: &mut impl Write, tier: &str) {
     let seed = seed_from_env();
     let n = if tier == "thorough" { 50_000 } else { 2_000 };
     let mut master = Rng::new(seed);
     for idx in 0..n {
         let (p, feats, wrap_body, inherit) = gen_program(master.next(), idx);
-        let model = flatten(&p);
-        let mut t = serde_json::Map::new();
-        for tm in &p.templates {
-            t.insert(tm.name.clone(), json!(tmpl_src(tm)));
-        }
         let ctx = prog_ctx(&p);
-        let case = json!({"s": "P", "idx": idx, "seed": seed, "main": p.main, "t": t, "ctx": ctx, "feats": feats, "model": model});
+        let case = prog_case("P", &p.templates, &p.main, &ctx, true, json!({"idx": idx, "seed": seed, "feats": feats}));
         let res = run_case(&case);
         writeln!(out, "{}\t{}", case, res).unwrap();
         // wrappers: the same body inside a capturing construct renders identically
         if !inherit && idx % 2 == 0 && res.starts_with("OK") {
-            let main = p.templates.iter().find(|x| x.name == p.main).unwrap();
-            let header = header_src(main);
-            let b = stmts_src(&wrap_body);
-            let variants: Vec<(&str, Vec<(String, String)>)> = vec![
-                ("set-block", vec![(p.main.clone(), format!("{header}{{% set w %}}{b}{{% endset %}}{{{{ w }}}}"))]),
-                ("set-block-twice", vec![(p.main.clone(), format!("{header}{{% set w %}}{b}{{% endset %}}{{% set w2 %}}{{{{ w }}}}{{% endset %}}{{{{ w2 }}}}"))]),
-                ("macro", vec![(p.main.clone(), format!("{header}{{% macro wm() %}}{b}{{% endmacro %}}{{{{ wm() }}}}"))]),
-                ("call-block", vec![(p.main.clone(), format!("{header}{{% macro wc() %}}{{{{ caller() }}}}{{% endmacro %}}{{% call wc() %}}{b}{{% endcall %}}"))]),
-                ("filter-block", vec![(p.main.clone(), format!("{header}{{% filter string %}}{b}{{% endfilter %}}"))]),
-                ("include", vec![(p.main.clone(), "{% include \"winc.html\" %}".to_string()), ("winc.html".to_string(), format!("{header}{b}"))]),
-                ("block", vec![(p.main.clone(), format!("{{% extends \"wbase.html\" %}}{header}{{% block c %}}{b}{{% endblock %}}")), ("wbase.html".to_string(), "{% block c %}{% endblock %}".to_string())]),
-                ("block-super", vec![
-                    (p.main.clone(), format!("{{% extends \"wbase.html\" %}}{{% block c %}}{{{{ super() }}}}{{% endblock %}}")),
-                    ("wbase.html".to_string(), format!("{header}{{% block c %}}{b}{{% endblock %}}")),
-                ]),
-            ];
-            let which = (idx / 2) as usize % variants.len();
-            let (kind, ts) = &variants[which];
-            let mut t2 = t.clone();
-            for (k, v) in ts {
-                t2.insert(k.clone(), json!(v));
+            let kinds = ["set-block", "set-block-twice", "macro", "call-block", "filter-block", "include", "block", "block-super"];
+            let kind = kinds[(idx / 2) as usize % kinds.len()];
+            let mut ts: Vec<Tmpl> = p.templates.iter().filter(|x| x.name != p.main).cloned().collect();
+            let mut main = p.templates.iter().find(|x| x.name == p.main).unwrap().clone();
+            let b = wrap_body.clone();
+            match kind {
+                "set-block" => main.body = vec![S::SetBlock("w".into(), b, None), S::Emit(E::Var("w".into()))],
+                "set-block-twice" => main.body = vec![
+                    S::SetBlock("w".into(), b, None),
+                    S::SetBlock("w2".into(), vec![S::Emit(E::Var("w".into()))], None),
+                    S::Emit(E::Var("w2".into())),
+                ],
+                "macro" => {
+                    main.macros.push(MacroDef { name: "wm".into(), params: vec![], body: b, uses_caller: false });
+                    main.body = vec![S::Emit(E::Call("wm".into(), vec![]))];
+                }
+                "call-block" => {
+                    main.macros.push(MacroDef { name: "wc".into(), params: vec![], body: vec![S::Emit(E::Caller)], uses_caller: true });
+                    main.body = vec![S::CallBlock("wc".into(), vec![], b)];
+                }
+                "filter-block" => main.body = vec![S::FilterBlock("string".into(), "string".into(), vec![], b)],
+                "include" => {
+                    ts.push(Tmpl { name: "winc.html".into(), extends: None, imports: main.imports.clone(), macros: std::mem::take(&mut main.macros), body: b });
+                    main.body = vec![S::Include("winc.html".into())];
+                }
+                "block" => {
+                    ts.push(Tmpl { name: "wbase.html".into(), body: vec![S::Block("c".into(), vec![])], ..Default::default() });
+                    main.extends = Some("wbase.html".into());
+                    main.body = vec![S::Block("c".into(), b)];
+                }
+                _ => {
+                    ts.push(Tmpl { name: "wbase.html".into(), extends: None, imports: main.imports.clone(), macros: std::mem::take(&mut main.macros), body: vec![S::Block("c".into(), b)] });
+                    main.extends = Some("wbase.html".into());
+                    main.body = vec![S::Block("c".into(), vec![S::Emit(E::Super)])];
+                }
             }
-            let wcase = json!({"s": "W", "idx": idx, "seed": seed, "kind": kind, "main": p.main, "t": t2, "ctx": case["ctx"], "plain": res});
+            ts.push(main);
+            let wcase = prog_case("W", &ts, &p.main, &ctx, true, json!({"idx": idx, "seed": seed, "kind": kind, "plain": res}));
             let wres = run_case(&wcase);
             writeln!(out, "{}\t{}", wcase, wres).unwrap();
         }
@@ -1789,6 +1651,9 @@ fn main() {
             }
             if let Some(m) = case["model"].as_str() {
                 writeln!(out, "--- model program\n{m}").unwrap();
+            }
+            if let Some(m) = case["prog"].as_str() {
+                writeln!(out, "--- model program (AST)\n{m}\n--- model context\n{}", case["ctxsx"].as_str().unwrap_or("")).unwrap();
             }
         }
         _ => {
